@@ -266,4 +266,20 @@ func (b *breakingReader) Read(q []byte) (int, error) {
 	return n, err
 }
 
+// Poll runs one iteration of a stepped worker.  A worker reads the table's recorded leader index through consensus; while the table's
+// raft group has no leader yet (right after the table was started, after a restart) that read fails transiently and the production
+// routine simply tries again on its next tick - so does this helper, for a bounded time.
+func Poll(w *replication.VerifWorker) (string, error) {
+	var res string
+	var err error
+	for i := 0; i < 150; i++ {
+		res, err = w.Poll()
+		if res != "state-error" {
+			return res, err
+		}
+		time.Sleep(20 * time.Millisecond)
+	}
+	return res, err
+}
+
 var _ = table.Table{}
